@@ -163,7 +163,7 @@ def build_controlled():
     return True, ""
 
 
-ALL_GEN_TARGETS = ("pmath", "routing", "access")
+ALL_GEN_TARGETS = ("pmath", "routing", "access", "guards")
 
 
 def lean_stage(prop, gen_targets, extra_modules=()):
